@@ -6,7 +6,9 @@ Oracle   the linear twin: every live object must render (six contexts, inline + 
 """
 from __future__ import annotations
 
-from hypothesis import HealthCheck, given, seed, settings, strategies as st
+import functools
+
+from hypothesis import HealthCheck, Phase, given, seed, settings, strategies as st
 
 from pbt import hist, snap
 from pbt.core import Collector, HarnessError, mksig
@@ -14,7 +16,8 @@ from pbt.core import Collector, HarnessError, mksig
 ID = "C01"
 RULE = ("histories = trees of builder calls over live objects of every builder-decorated family (six query-builder classes, set operations, "
         "CREATE/DROP/LOAD builders, tables, CASE, aggregate/analytic/window-frame functions, criteria, fields, tuples, join objects); after every "
-        "step every live object is compared with its linear twin under all six contexts inline and parameterised. Non-trivial step = the receiver "
+        "step every live object is compared with its linear twin under all six contexts inline and parameterised; plus one enumerated family: for every "
+        "(family, method) pair of every menu, two continuations of one receiver by that method, the method again on the first continuation and an unrelated call on the root. Non-trivial step = the receiver "
         "already has a child or its chain already contains the same method (clause non-empty); distinct = distinct history.")
 ASSUMPTIONS = [
     "arguments of every call are fresh instances (the property allows auto-aliasing of an argument; sharing argument instances would make that visible elsewhere)",
@@ -183,11 +186,58 @@ def valid_case(case):
 
 def shards(tier, sd):
     n = 8 if tier == "quick" else 32
-    return [(tier, sd * 1000 + k, k) for k in range(n)]
+    return [(tier, sd * 1000 + k, k) for k in range(n)] + [("matrix:" + tier, sd * 1000 + 700 + k, k) for k in range(8)]
+
+
+@functools.lru_cache(maxsize=None)
+def method_matrix():
+    """every (family, method) pair of every menu - enumerated, because drawing the pair would leave many of them unvisited"""
+    return [(fam, name) for fam in hist.FAMILIES for name in sorted({s.name for s in hist.menu(fam)})]
+
+
+@st.composite
+def matrix_history(draw, family, name):
+    """root; two continuations of the root by the SAME method (the second made on the older receiver); the method again on the first
+    continuation (its clause is non-empty now); one unrelated call on the root"""
+    named = [s for s in hist.menu(family) if s.name == name]
+    ops = [["new", family, draw(hist.root(family))]]
+    ops.append(["call", 0, draw(hist.one_of_steps(named))])
+    ops.append(["call", 0, draw(hist.one_of_steps(named))])
+    f1 = hist.result_family(family, ops[1][2])
+    ops.append(["call", 1, draw(hist.one_of_steps(named if f1 == family else hist.menu(f1)))])
+    ops.append(["call", 0, draw(hist.one_of_steps(hist.menu(family)))])
+    return {"ops": ops}
+
+
+def run_matrix_shard(tier, sd, k):
+    col = Collector()
+    per = 4 if tier.endswith("quick") else 30
+    pairs = method_matrix()
+    for idx in range(k, len(pairs), 8):
+        family, name = pairs[idx]
+
+        @seed(sd * 1000 + idx)
+        @settings(max_examples=per, database=None, deadline=None, suppress_health_check=list(HealthCheck), report_multiple_bugs=False, phases=[Phase.generate])
+        @given(matrix_history(family, name))
+        def one(h):
+            steps = []
+
+            def on_step(cname, m, nt, exc):
+                steps.append(nt)
+                col.count("step:%s.%s" % (cname, m))
+
+            run_history(h, lambda sig, detail: col.violation(sig, h, detail), on_step)
+            col.case(h, any(steps), classes=("matrix",))
+
+        one()
+    col.notes["method_matrix_pairs"] = len(pairs)
+    return col
 
 
 def run_shard(shard):
     tier, sd, k = shard
+    if tier.startswith("matrix:"):
+        return run_matrix_shard(tier, sd, k)
     col = Collector()
     nex = 500 if tier == "quick" else 4000
     fams = hist.FAMILIES
